@@ -10,4 +10,29 @@ theorem Obs.optAgree_sound {x y : Option Obs} (h : Obs.optAgree x y = true) : y.
   cases x <;> cases y <;> simp [Obs.optAgree] at h ⊢
   exact (Obs.agree_iff _ _).mp h
 
+theorem isIn_mem {s : Nat} {l : List Nat} (h : isIn s l = true) : s ∈ l := by
+  induction l with
+  | nil => simp [isIn] at h
+  | cons x xs ih =>
+    simp only [isIn, Bool.or_eq_true] at h
+    rcases h with h | h
+    · have : x = s := Nat.eq_of_beq_eq_true h
+      simp [this]
+    · exact List.mem_cons_of_mem _ (ih h)
+
+theorem isIn_filter {s : Nat} {l : List Nat} {p : Nat → Bool} (h : isIn s (l.filter p) = true) :
+    p s = true := by
+  have := isIn_mem h
+  exact (List.mem_filter.mp this).2
+
+open Tls.Gen.Suites in
+theorem versionIncludes_mem {mn mx : Ver} {s : Nat} (h : versionIncludes mn mx s = true) :
+    s ∈ ssl3Suites ++ tls12Suites ++ tls13Suites := by
+  simp only [versionIncludes, Bool.or_eq_true, Bool.and_eq_true] at h
+  simp only [List.mem_append]
+  rcases h with (h | h) | h
+  · exact Or.inl (Or.inl (isIn_mem h.2))
+  · exact Or.inl (Or.inr (isIn_mem h.2))
+  · exact Or.inr (isIn_mem h.2)
+
 end Tls.Suites
